@@ -475,6 +475,12 @@ func (x *c19Run) accepted(res c19AccRes) {
 	st.conn = res.conn
 	st.sst = w.stream
 	var tag []byte
+	if x.sess[st.s].dead {
+		// the client session died while the conn sat in the backlog: like a socket accepted after the
+		// peer went away, its reads fail; nothing to check on the bytes
+		tag = []byte{byte(st.s), byte(st.k), 0xC1, 0x19}
+		x.feat["accept-conn-of-dead-session"] = true
+	}
 	for len(tag) < 4 {
 		buf := make([]byte, 4-len(tag))
 		p := &st.up
